@@ -795,6 +795,11 @@ func c19r6(p *Program, r *Report) {
 				if e.Op == token.ADD && isTimeUnits(info, e, 10000000, 100) {
 					okForm = true
 				}
+				if e.Op == token.ADD && !okForm {
+					if ex, isB := ast.Unparen(p.expandLocalsAny(u, e, 0)).(*ast.BinaryExpr); isB && isTimeUnits(info, ex, 10000000, 100) {
+						okForm = true
+					}
+				}
 			}
 			return true
 		})
